@@ -261,6 +261,8 @@ fn synthetic(seed: u64, i: usize, tier: Tier) -> Outcome {
         None
     };
     let clear_at = r.range(5, 60) as usize;
+    // one history in four begins with rounds in which nothing answers
+    let silent_start = i % 4 == 1;
     let mut state = State::new(StateConfig { max_samples, max_flows });
     let mut m = FlowMonitor::new(first, max_flows, max_samples);
     let site = format!("synthetic/maxflows{max_flows}{}", if via_tracer { "/tracer" } else { "" });
@@ -279,7 +281,7 @@ fn synthetic(seed: u64, i: usize, tier: Tier) -> Outcome {
             }
             let ttl = first + j;
             let p = probe_new(Sequence(1000 + u16::from(j)), TraceId(1), Port(1), Port(2), TimeToLive(ttl), RoundId(k), t0, Flags::empty());
-            probes.push(if r.chance(1, 5) {
+            probes.push(if r.chance(1, 5) || (silent_start && k < 2) {
                 ProbeStatus::Awaited(p)
             } else if r.chance(1, 20) {
                 ProbeStatus::Failed(synth::failed(p))
@@ -289,7 +291,9 @@ fn synthetic(seed: u64, i: usize, tier: Tier) -> Outcome {
                 ProbeStatus::Complete(synth::complete(p, IpAddr::V4(Ipv4Addr::new(10, ttl, branch, 1)), t0 + Duration::from_millis(3), IcmpPacketType::NotApplicable, None, None, None, None))
             });
         }
-        let largest = first + n - 1;
+        // (a round in which nothing answered is published with path length 0, as the strategy does)
+        let answered = probes.iter().any(|p| matches!(p, ProbeStatus::Complete(_)));
+        let largest = if answered { first + n - 1 } else { 0 };
         let round = Round::new(&probes, TimeToLive(largest), CompletionReason::TargetFound);
         let applied = match &tracer {
             Some(t) => guarded(|| {
